@@ -172,6 +172,9 @@ func vReach(label string)
 func vObserve(label string, v uint64)
 func vElapsedSec() uint64
 
+// vNative reports whether the harness runs natively (replay) rather than in the engine
+func vNative() bool { return false }
+
 // helper used by the engine's model of sort.Slice / sort.SliceStable
 func vInsertionSort(n int, less func(i, j int) bool, swap func(i, j int)) {
 	for i := 1; i < n; i++ {
